@@ -36,11 +36,28 @@
 (*             iterator are driven with one context (the iterator binds the    *)
 (*             context of the first call, producer.go:367-382 - see X01        *)
 (*             divergence list).                                               *)
+(*                                                                            *)
+(* Filtered distributors over the channel (pubsub/buffer.go:37-54):            *)
+(*   dsendf    DistributorChanOp(op).WithInputFilter(f).Send: an item the      *)
+(*             filter rejects is not sent and the call reports nil (docs:      *)
+(*             "skipped"; the nil is as observed).  The filter wrapper is      *)
+(*             push.Filter(f).WithoutErrors(ErrCurrentOpSkip), and             *)
+(*             ErrNonBlockingChannelOperationSkipped IS ErrCurrentOpSkip: a    *)
+(*             NonBlocking send that was skipped because the channel is full   *)
+(*             ALSO reports nil - as observed, see X01 divergence list         *)
+(*             (MaskSkip).                                                     *)
+(*   drecvf    ...WithOutputFilter(f).Receive: a received item the filter      *)
+(*             rejects is consumed and the call reports ErrCurrentOpSkip.      *)
+(* `bad` is the set of items the filters reject.                               *)
 (***************************************************************************)
 EXTENDS ChanCore
 
 \* itcanc: the one context all Next calls of the iterator are driven with has been cancelled
-NewSys(cap, isnil) == [c |-> MkChan(cap, isnil), ops |-> <<>>, out |-> <<>>, itclosed |-> FALSE, itcanc |-> FALSE]
+NewSys(cap, isnil) == [c |-> MkChan(cap, isnil), ops |-> <<>>, out |-> <<>>, itclosed |-> FALSE, itcanc |-> FALSE, bad |-> {}]
+
+\* as observed: the input-filter wrapper turns the channel's own "skipped" into nil (TRUE); FALSE = the reading
+\* "a Send that did not send says so" (used by Step_doc_mask.cfg to demonstrate the divergence on the real code)
+CONSTANT MaskSkip
 
 MkOp(k, meth, nb, val, pre, left) ==
   [k |-> k, meth |-> meth, nb |-> nb, val |-> val, st |-> "new", canc |-> pre, pre |-> pre, left |-> left, acc |-> <<>>]
@@ -48,9 +65,11 @@ MkOp(k, meth, nb, val, pre, left) ==
 Ops(s) == DOMAIN s.ops
 
 \* operation id is called (pre: with a context that is already cancelled)
-StartSucc(s, id, k, meth, nb, val, pre, left) ==
+\* (isbad: the filters reject the item this call sends)
+StartSucc(s, id, k, meth, nb, val, pre, left, isbad) ==
   LET p == pre \/ (meth = "next" /\ s.itcanc) IN
-  [s EXCEPT !.ops = (id :> MkOp(k, meth, nb, val, p, left)) @@ @, !.itcanc = @ \/ (meth = "next" /\ pre)]
+  [s EXCEPT !.ops = (id :> MkOp(k, meth, nb, val, p, left)) @@ @, !.itcanc = @ \/ (meth = "next" /\ pre),
+            !.bad = IF isbad THEN @ \cup {val} ELSE @]
 NewOps(s) == {i \in Ops(s) : s.ops[i].st = "new"}
 ParkedK(s, k) == {i \in Ops(s) : s.ops[i].st = "parked" /\ s.ops[i].k = k}
 Without(f, i) == [j \in DOMAIN f \ {i} |-> f[j]]
@@ -76,6 +95,8 @@ After(s, i, b, v) ==
          IF b = "val" THEN Ret(s, i, "v:" \o v)
          ELSE IF b = "skip" THEN [s EXCEPT !.ops[i].st = "new"]
          ELSE Ret([s EXCEPT !.itclosed = TRUE], i, "false")
+    [] o.meth = "dsendf" -> Ret(s, i, IF b = "skip" /\ MaskSkip THEN "ok" ELSE b)
+    [] o.meth = "drecvf" -> Ret(s, i, IF b = "val" THEN (IF v \in s.bad THEN "skip" ELSE "v:" \o v) ELSE b)
     [] o.k = "send" -> Ret(s, i, SendMethRes(o.meth, b))
     [] OTHER        -> Ret(s, i, RecvMethRes(o.meth, b, v))
 
@@ -88,6 +109,8 @@ LoopHead(s, i) ==
          ELSE {}
     [] o.meth = "next" ->
          IF s.itclosed \/ o.pre THEN {Ret(s, i, "false")} ELSE {}       \* iterator.go:209
+    [] o.meth = "dsendf" ->
+         IF o.val \in s.bad THEN {Ret(s, i, "ok")} ELSE {}               \* process.go:159-166, buffer.go:42: rejected, not sent, nil
     [] OTHER -> {}
 
 \* operation i (st = "new") evaluates its select
